@@ -510,8 +510,9 @@ class CodeGenerator(NodeVisitor):
 
         # if any of the given keyword arguments is a python keyword
         # we have to make sure that no invalid call is created.
+        # "__debug__" is not a keyword but python refuses to assign to it.
         kwarg_workaround = any(
-            is_python_keyword(t.cast(str, k))
+            is_python_keyword(t.cast(str, k)) or k == "__debug__"
             for k in chain((x.key for x in node.kwargs), extra_kwargs or ())
         )
 
